@@ -112,6 +112,14 @@ CLAIMED = {
         "rpc with required fields first (partition keeps order).",
         "Trusted: protobuf MessageToJson; Jinja `sort`/`unique` filters.",
         "DESIGN.md 4/C15"),
+    "C16": (
+        "traversal exhaustiveness computed from dataclass annotations (ast) + visited-set discipline + comprehension-shape rules + must-pass-through",
+        "Decides that the allow-list walk of every addressable wrapper adds its own address and descends into every field whose type can "
+        "itself be allow-listed (listed exceptions with reasons), that a visited-set test is only ever on the node's own identity, that "
+        "pruning filters exactly the four collections by membership and leaves dependencies alone, that selection is by fully-qualified "
+        "name, that internal mode only flips is_internal, and that settings are validated before they are used.",
+        "Trusted: dataclasses.replace semantics.",
+        "DESIGN.md 4/C16"),
     "C18": (
         "branch-wise ast pattern rules on the validator + shape/dominance rules on the inlined population block",
         "Decides that each AIP-4235 violation (duplicate, unknown, streaming, nested/missing, non-string, required, non-UUID4) has "
